@@ -10,8 +10,11 @@ Nothing here calls the code under test except `run_select_all`,
 `run_ref_list` and `leaves_order` (the latter only to learn the *order* in
 which the implementation enumerates a parent's pairs).
 """
+import contextlib
 import itertools
 import json
+import os
+import sys
 
 import numpy as np
 import h5py
@@ -175,12 +178,15 @@ def parent_key(parent):
 # ---------------------------------------------------------------------------
 
 def small_tree(rng, max_leaves=7):
+    """mostly >= 3 leaves (so that some parent has pairs to discriminate);
+    deeper trees preferred"""
+    min_leaves = 1 if rng.random() < 0.1 else 3
     while True:
         t = gen.random_tree(rng, max_depth=3, max_top=3, max_children=3,
                             rows=False, chain_prob=0.2)
         t = {k: v for k, v in t.items() if k != 'metadata'}
         leaf = t['hierarchy'][-1]
-        if len(t[leaf]) <= max_leaves:
+        if min_leaves <= len(t[leaf]) <= max_leaves:
             for k in t[leaf]:
                 t[leaf][k] = []
             return t
@@ -319,6 +325,24 @@ def write_problem(prob, d, with_metadata=True):
 # adapters (the real code)
 # ---------------------------------------------------------------------------
 
+@contextlib.contextmanager
+def silent():
+    """pipeline.quiet + the workers' stderr (a failing worker prints its
+    traceback there) sent to /dev/null"""
+    sys.stderr.flush()
+    saved = os.dup(2)
+    devnull = os.open(os.devnull, os.O_WRONLY)
+    try:
+        os.dup2(devnull, 2)
+        with pipeline.quiet():
+            yield
+    finally:
+        sys.stderr.flush()
+        os.dup2(saved, 2)
+        os.close(saved)
+        os.close(devnull)
+
+
 def classify_error(e):
     msg = str(e)
     if 'No gene overlap' in msg:
@@ -356,7 +380,7 @@ def run_select_all(prob, ref_path, tt, n_processors, cutoff, tmp_dir):
     from cell_type_mapper.marker_selection.selection_pipeline import (
         select_all_markers)
     try:
-        with pipeline.quiet():
+        with silent():
             out, log = select_all_markers(
                 marker_cache_path=ref_path,
                 query_gene_names=list(prob.query),
@@ -382,7 +406,7 @@ def run_ref_list(prob, ref_path, n_processors, cutoff, tmp_dir):
     from cell_type_mapper.type_assignment.marker_cache_v2 import (
         create_marker_gene_lookup_from_ref_list)
     try:
-        with pipeline.quiet():
+        with silent():
             res = create_marker_gene_lookup_from_ref_list(
                 reference_marker_path_list=[str(ref_path)],
                 query_gene_names=list(prob.query),
